@@ -383,3 +383,83 @@ def do_traces_filters(req):
 
 
 HANDLERS.update({'traces_filters': do_traces_filters})
+
+
+# ------------------------------------------------------------------------------ C04 refute mode
+_CODES = []
+
+
+def _cached_codes():
+    if not _CODES:
+        from pykdebugparser.trace_codes import default_trace_codes
+        _CODES.append(default_trace_codes())
+    return _CODES[0]
+
+
+def do_pairing_case(req):
+    from pykdebugparser.traces_parser import TracesParser
+    from pykdebugparser.trace_handlers.trace import handlers as trace_handlers
+    from spec import pairing as S
+    codes = _cached_codes()
+    p = TracesParser(codes, {}, {})
+    stream = [tuple(x) for x in req['stream']]
+    evs = [_mk_kevent(c, t, q, (i + 1, 2, 3, 4), ts=i) for i, (t, c, q) in enumerate(stream)]
+    ids = {id(e): i for i, e in enumerate(evs)}
+    dom = lambda c: 'trace' if codes.get(c) in trace_handlers else 'event'
+    dec = lambda c: codes.get(c) in p.handlers
+    frag = set(k for k, v in codes.items() if v in ('VFS_LOOKUP', 'TRACE_STRING_GLOBAL', 'TRACE_STRING_THREADNAME', 'TRACE_STRING_THREADNAME_PREV'))
+    exp = S.expected(stream, dom, dec, frag)
+    got = []
+    for i, e in enumerate(evs):
+        try:
+            r = p.feed(e)
+        except BaseException as ex:  # noqa
+            return {'violates': True, 'what': 'feed raised %s: %s at position %d' % (type(ex).__name__, ex, i), 'position': i}
+        g = None if r is None else [ids.get(id(x), -1) for x in r.ktraces]
+        got.append(g)
+        if not S.window_ok(exp[i], g):
+            return {'violates': True, 'position': i, 'expected': exp[i], 'got': g,
+                    'what': 'at stream position %d the emitted trace window is %r, the pairing specification allows %r' % (i, g, exp[i])}
+    return {'violates': False, 'got': got}
+
+
+def do_pairing_search(req):
+    import itertools
+    import random
+    inv = {v: k for k, v in _cached_codes().items()}
+    from pykdebugparser.traces_parser import TracesParser
+    hs = TracesParser({}, {}, {}).handlers
+    cls7 = sorted(k for k, v in _cached_codes().items() if k >> 24 == 7 and v not in hs)
+    codes = [inv['BSC_getpid'], inv['TRACE_DATA_THREAD_TERMINATE'], inv['MACH_SCHED_BT'], inv['BSC_getuid'], 0x7fff0000,
+             cls7[0] if cls7 else 0x07ff0000, 0x07fe0000]
+    tids = [11, 12]
+    alpha = [(t, c, q) for t in tids for c in codes[:3] for q in (0, 1, 2, 3)]
+    alpha_full = [(t, c, q) for t in tids for c in codes for q in (0, 1, 2, 3)]
+    rnd = random.Random(req.get('seed', 0))
+    budget = req.get('budget', 20000)
+    depth = req.get('depth', 4)
+    tried = 0
+
+    def trial(stream):
+        return do_pairing_case({'stream': stream})
+    for n in range(1, 4):
+        for st in itertools.product(alpha, repeat=n):
+            tried += 1
+            r = trial(st)
+            if r['violates']:
+                r['request'] = {'kind': 'pairing_case', 'stream': [list(x) for x in st]}
+                return {'tried': tried, 'bound': 'all streams of length <= 3 over %d symbols, then random longer ones' % len(alpha), 'found': r}
+            if tried >= budget:
+                break
+    while tried < budget:
+        n = rnd.randint(4, max(4, depth + 3))
+        st = tuple(rnd.choice(alpha_full) for _ in range(n))
+        tried += 1
+        r = trial(st)
+        if r['violates']:
+            r['request'] = {'kind': 'pairing_case', 'stream': [list(x) for x in st]}
+            return {'tried': tried, 'bound': 'all streams of length <= 3 over %d symbols + random streams up to length %d' % (len(alpha), depth + 3), 'found': r}
+    return {'tried': tried, 'bound': 'all streams of length <= 3 over %d symbols + random streams up to length %d' % (len(alpha), depth + 3), 'found': None}
+
+
+HANDLERS.update({'pairing_case': do_pairing_case, 'pairing_search': do_pairing_search})
